@@ -157,12 +157,25 @@ type engaMsg struct {
 	data     []byte
 	keep     bool // stays in the pool after delivery once (duplication)
 	cls      int  // message class for scheduler filters: vote step (>= 0), engaClsPayload, engaClsBundle
+	due      time.Duration // synchronous phase only: global time at which the network delivers it
 }
 
 const (
 	engaClsPayload = -1
 	engaClsBundle  = -2
 )
+
+// engaVoteOf decodes a vote message (nil, false for other tags).
+func engaVoteOf(m *engaMsg) (unauthenticatedVote, bool) {
+	if m.tag != protocol.AgreementVoteTag {
+		return unauthenticatedVote{}, false
+	}
+	o, err := decodeVote(m.data)
+	if err != nil {
+		return unauthenticatedVote{}, false
+	}
+	return o.(unauthenticatedVote), true
+}
 
 func engaClassify(tag protocol.Tag, data []byte) int {
 	switch tag {
@@ -302,6 +315,7 @@ type engaSim struct {
 	dedupeDelivered bool
 	keepDup         func() bool // scheduler hook: keep a copy that dedupe would drop?
 	hold            func(m *engaMsg) bool // scheduler hook: messages held back by the network for now
+	delay           func() time.Duration  // synchronous phase: delivery time assigned to every new message
 
 	// history
 	ref      Ledger // reference ledger holding the agreed prefix
@@ -1040,7 +1054,11 @@ func (s *engaSim) enqueue(src, dst int, tag protocol.Tag, data []byte, h crypto.
 	}
 	s.known[dst][h] = true
 	s.seq++
-	s.pool = append(s.pool, &engaMsg{id: s.seq, src: src, dst: dst, tag: tag, data: data, cls: engaClassify(tag, data)})
+	m := &engaMsg{id: s.seq, src: src, dst: dst, tag: tag, data: data, cls: engaClassify(tag, data)}
+	if s.delay != nil {
+		m.due = s.delay()
+	}
+	s.pool = append(s.pool, m)
 }
 
 // observeWire records votes / payloads that were on the wire (the adversary's knowledge, and label bookkeeping).
